@@ -153,4 +153,93 @@ theorem updateGoal_covers (goal : List (Nat × Nat)) (bad : List Nat) (total : N
       · simp only [Option.some.injEq] at h; subst h
         exact placeHomeless_places _ _ _ _ _ hhome
 
+theorem mem_insertEntry (e x : Nat × Nat × Nat) (l : List (Nat × Nat × Nat)) :
+    x ∈ insertEntry e l ↔ x = e ∨ x ∈ l := by
+  induction l with
+  | nil => simp [insertEntry]
+  | cons f l ih =>
+    simp only [insertEntry]
+    split
+    · simp
+    · simp only [List.mem_cons, ih]
+      constructor
+      · rintro (h | h | h)
+        · exact Or.inr (Or.inl h)
+        · exact Or.inl h
+        · exact Or.inr (Or.inr h)
+      · rintro (h | h | h)
+        · exact Or.inr (Or.inl h)
+        · exact Or.inl h
+        · exact Or.inr (Or.inr h)
+
+theorem mem_foldr_insertEntry (l : List (Nat × Nat × Nat)) (x : Nat × Nat × Nat) :
+    x ∈ l.foldr insertEntry [] ↔ x ∈ l := by
+  induction l with
+  | nil => simp
+  | cons a l ih => simp only [List.foldr_cons, mem_insertEntry, ih, List.mem_cons]
+
+/-- a share placed by the round robin goes to a server of the list (the index never leaves it) -/
+theorem placeHomeless_from (servers : List Nat) (hl : List Nat) (i : Nat) (goal : List (Nat × Nat)) (x : Nat × Nat)
+    (hi : i < servers.length) (h : x ∈ placeHomeless servers hl i goal) : x ∈ goal ∨ x.1 ∈ servers := by
+  induction hl generalizing i goal with
+  | nil => exact Or.inl h
+  | cons sh rest ih =>
+    simp only [placeHomeless] at h
+    have hi' : (if servers.length ≤ i + 1 then 0 else i + 1) < servers.length := by
+      split <;> omega
+    rcases ih _ _ hi' h with h1 | h1
+    · rcases (mem_setAdd _ _ _).mp h1 with h2 | h2
+      · exact Or.inl h2
+      · right
+        rw [h2]
+        simp only [List.getD_eq_getElem?_getD, List.getElem?_eq_getElem hi, Option.getD_some]
+        exact List.getElem_mem hi
+    · exact Or.inr h1
+
+/-- `update_goal` keeps no share on a bad server and places homeless shares only on servers of the permuted list
+    that are not bad and may be uploaded to -/
+theorem updateGoal_sound (goal : List (Nat × Nat)) (bad : List Nat) (total : Nat) (full : List (Nat × Bool))
+    (g : List (Nat × Nat)) (h : updateGoal goal bad total full = some g) (x : Nat × Nat) (hx : x ∈ g) :
+    x.1 ∉ bad ∧ (x ∈ goal ∨ (x.1, true) ∈ full) := by
+  unfold updateGoal at h
+  simp only at h
+  have hgoal1 : ∀ y ∈ goal.filter (fun e => e.1 ∉ bad), y.1 ∉ bad ∧ y ∈ goal := by
+    intro y hy
+    simp only [List.mem_filter, decide_eq_true_eq] at hy
+    exact ⟨hy.2, hy.1⟩
+  split at h
+  · simp only [Option.some.injEq] at h; subst h
+    obtain ⟨h1, h2⟩ := hgoal1 x hx
+    exact ⟨h1, Or.inl h2⟩
+  · split at h
+    · simp at h
+    · rename_i hne
+      simp only [Option.some.injEq] at h; subst h
+      have hlen : 0 < ((List.foldr insertEntry [] (List.map
+          (fun e => ((goal.filter (fun g => decide (g.1 ∉ bad))).filter (fun g => g.1 == e.1.1) |>.length, e.2, e.1.1))
+          (List.filter (fun e => decide (e.1.1 ∉ bad) && e.1.2) full.zipIdx))).map (·.2.2)).length := by
+        simp only [List.length_map]
+        apply List.length_pos_iff.mpr
+        intro hnil
+        apply hne
+        simp only [List.isEmpty_iff]
+        simpa using hnil
+      rcases placeHomeless_from _ _ 0 _ x (by simpa using hlen) hx with h1 | h1
+      · obtain ⟨a, b⟩ := hgoal1 x (by simpa using h1)
+        exact ⟨a, Or.inl b⟩
+      · simp only [List.mem_map] at h1
+        obtain ⟨e, he, hex⟩ := h1
+        rw [mem_foldr_insertEntry] at he
+        simp only [List.mem_map, List.mem_filter, Bool.and_eq_true, decide_eq_true_eq] at he
+        obtain ⟨z, ⟨hz, hnb, hperm⟩, rfl⟩ := he
+        simp only at hex
+        have hzfull : z.1 ∈ full := by
+          obtain ⟨⟨a, b⟩, idx⟩ := z
+          exact (List.mem_zipIdx hz).2.2 ▸ List.getElem_mem _
+        refine ⟨by rw [← hex]; exact hnb, Or.inr ?_⟩
+        obtain ⟨⟨a, b⟩, idx⟩ := z
+        simp only at hperm hex hnb hzfull
+        subst hperm
+        rw [← hex]; exact hzfull
+
 end Tahoe.Mutable.Pub
